@@ -1,1 +1,147 @@
-/-! # C06 — property theorems (stub) -/
+import Okane.Lemmas.NoCrash
+import Okane.Lemmas.Diag
+/-!
+# C06 — every input yields output or a diagnostic: no crash, no hang
+
+`Outcome.crashes o` is "`o` is `panic _` or `fuelOut`": the model's rendering of a Rust panic and of an
+unbounded loop.  The theorems below cover the model functions that exist for book-keeping and for error
+reporting.  The statements over the parser, the printer and the loader (`C06_parse`, `C06_format`, `C06_load`)
+are kept visible as `Prop`s over those models' entry points; they are proved where those models live.
+Wall-clock promptness, real stack depth (see known finding F9) and panics inside third-party crates are not
+expressible here: the C06 streams observe them on the real code, no theorem carries them.
+-/
+namespace Okane.C06
+open Okane Okane.Diag
+
+/-! ## the full statements over the models of parser / printer / loader -/
+
+/-- **C06_parse** (statement): the ledger parser model, run with fuel `|t| + 1`, neither panics nor runs out
+of fuel, for every text — ParseError construction included. -/
+def C06_parse {ε α : Type} (parseLedger : Nat → List Char → Outcome ε α) : Prop :=
+  ∀ t : List Char, ∃ f, f ≤ t.length + 1 ∧ (parseLedger f t).crashes = false
+
+/-- **C06_format** (statement): `format` (parse + print every entry) never crashes, for every text. -/
+def C06_format {ε α : Type} (format : List Char → Outcome ε α) : Prop :=
+  ∀ t : List Char, (format t).crashes = false
+
+/-- **C06_load** (statement): loading from any finite file system, any root, with fuel `|files| + 1`, never
+crashes — in particular include cycles end in `err`, not in `fuelOut`. -/
+def C06_load {φ ρ ε α : Type} (size : φ → Nat) (load : Nat → φ → ρ → Outcome ε α) : Prop :=
+  ∀ (fs : φ) (root : ρ), (load (size fs + 1) fs root).crashes = false
+
+/-- **C06_prefix**: totality over all texts gives totality over every prefix of every text ("cut at every
+character"), for any entry point. -/
+theorem C06_prefix {ε α : Type} (f : List Char → Outcome ε α) (h : ∀ t, (f t).crashes = false) :
+    ∀ t p : List Char, p <+: t → (f p).crashes = false :=
+  fun _ p _ => h p
+
+/-! ## book-keeping -/
+
+/-- **C06_process.** `process` never panics and never hangs, for every list of entries (any syntax tree the
+parser can deliver, in any order; numbers are exact in the model, i.e. "within the representable range"):
+the result is either the processed state or an error naming an entry. -/
+theorem C06_process (es : List Entry) : (Okane.process es).crashes = false :=
+  processFrom_safe {} 0 es
+
+theorem C06_process_outcome (es : List Entry) :
+    (∃ st, Okane.process es = .ok st) ∨ (∃ i e, Okane.process es = .err (i, e) ∧ i < es.length) := by
+  have h := C06_process es
+  cases hp : Okane.process es with
+  | ok st => exact .inl ⟨st, rfl⟩
+  | err x =>
+    obtain ⟨i, e⟩ := x
+    have := processFrom_err_index {} 0 es i e hp
+    exact .inr ⟨i, e, rfl, by omega⟩
+  | panic s => rw [hp] at h; simp at h
+  | fuelOut => rw [hp] at h; simp at h
+
+/-- one step of `process` from *any* accumulated state (every history of earlier entries). -/
+theorem C06_step (st : ProcState) (e : Entry) : (stepEntry st e).crashes = false := stepEntry_safe st e
+
+/-- the `unreachable!` of `posting_price_event` really is unreachable: an exchange (cost or lot price) on a
+posting whose amount has no commodity is always rejected by `Exchange::try_from_syntax`. -/
+theorem C06_zero_amount_exchange_rejected (s : Store) (x : Exchange) :
+    ∃ e, resolveExchange s .zero x = .err e := by
+  have h := resolveExchange_safe s .zero x
+  cases hr : resolveExchange s .zero x with
+  | ok r => exact absurd hr (resolveExchange_zero_not_ok s x r)
+  | err e => exact ⟨e, rfl⟩
+  | panic p => rw [hr] at h; simp at h
+  | fuelOut => rw [hr] at h; simp at h
+
+/-! ## error reporting -/
+
+/-- **the boundary search of `ParseError::new` terminates** within `|input| + 1` steps, from any offset inside
+the input (this is the loop that never ended on the pinned tree, finding F1a). -/
+theorem C06_boundary_search (input : Bytes) (offset : Nat) (h : offset ≤ input.length) :
+    ∃ r, findBoundary input (input.length + 1) (offset + 1) = .ok r :=
+  findBoundary_terminates input (input.length + 1) (offset + 1) (by omega) (by omega)
+
+/-- **ParseError::new is total** for the positions `ParsedIter::next` / `parse_single` pass: checkpoint
+`startPos` ≤ failure position `errPos` ≤ end of file.  Neither winnow's `offset_from` assertion, nor
+`compute_line_number`'s assert, nor the fuel of the boundary search is hit. -/
+theorem C06_parse_error_new (initial : Bytes) (startPos errPos : Nat)
+    (h1 : startPos ≤ errPos) (h2 : errPos ≤ initial.length) :
+    (parseErrorNew (parseErrorFuel initial) initial startPos errPos).crashes = false := by
+  obtain ⟨pe, h⟩ := parseErrorNew_total initial startPos errPos h1 h2
+  rw [h]; rfl
+
+/-- `compute_line_number`'s assert cannot fire for a position inside the text. -/
+theorem C06_line_number (t : Bytes) (p : Nat) (hp : p ≤ t.length) : (computeLineNumber t p).crashes = false := by
+  simp [computeLineNumber, hp]
+
+/-- `clip` underflows exactly when the child ends before the parent starts (or the parent range is reversed);
+in particular never for a span inside the entry. -/
+theorem C06_clip_iff (parent child : Range) :
+    (clip parent child).crashes = true ↔ min parent.stop child.stop < parent.start := by
+  unfold clip
+  simp only
+  split <;> simp_all
+
+theorem C06_clip (parent child : Range) (h : child.within parent) : (clip parent child).crashes = false := by
+  rw [clip_within parent child h]; rfl
+
+/-- building and annotating the report of a book-keeping error is total for an entry span that is a valid
+slice of its file and tracked spans inside it. -/
+theorem C06_error_context {π : Type} (path : π) (c : PCtx) (e : BkSpans)
+    (hv : c.validSlice = true) (hin : ∀ r ∈ e.tracked, r.within c.span) :
+    (ErrorContext.new path c).crashes = false ∧
+      ∀ ctx, ErrorContext.new path c = .ok ctx → (ctx.annotations e).crashes = false := by
+  obtain ⟨text, htext, _, _⟩ := asStr_length c hv
+  have hv' := hv
+  simp only [PCtx.validSlice, Bool.and_eq_true, decide_eq_true_eq] at hv'
+  have hstart : c.span.start ≤ c.initial.length := by omega
+  have hnew : ErrorContext.new path c = .ok ⟨path, 1 + countLF (c.initial.take c.span.start), text, c.span⟩ := by
+    simp [ErrorContext.new, PCtx.computeLineStart, computeLineNumber, hstart, htext]
+  refine ⟨by rw [hnew]; rfl, ?_⟩
+  intro ctx hctx
+  rw [hnew] at hctx
+  injection hctx with hctx
+  subst hctx
+  have hres := resolveAll_within c.span e.tracked hin
+  cases e <;> simp_all [ErrorContext.annotations, BkSpans.tracked]
+
+/-! ## non-vacuity -/
+
+-- `process` is not constant: a balanced transaction is accepted, an unbalanced one and a cost on a
+-- commodity-less zero amount are rejected with an error (not the `unreachable!`)
+def usd (neg : Bool) (n : Nat) : PostingAmount := { amount := .amt ⟨neg, n, 0, none⟩ "USD" }
+example : (Okane.process [.txn { date := ⟨2024, 1, 1⟩, posts := [
+    { account := "A", amount := some (usd false 5) }, { account := "B", amount := some (usd true 5) }] }]).isOk = true := by
+  decide +kernel
+example : (Okane.process [.txn { date := ⟨2024, 1, 1⟩, posts := [
+    { account := "A", amount := some (usd false 5) }, { account := "B", amount := some (usd true 4) }] }]).isErr = true := by
+  decide +kernel
+example : (Okane.process [.txn { date := ⟨2024, 1, 1⟩, posts := [
+    { account := "A", amount := some { amount := .amt ⟨false, 0, 0, none⟩ "",
+                                       cost := some (.rate (.amt ⟨false, 1, 0, none⟩ "USD")) } },
+    { account := "B" }] }]).isErr = true := by
+  decide +kernel
+-- the boundary search at the very end of a text whose last character is multi-byte
+example : findBoundary (encode "aé".toList) 4 4 = .ok none := by decide
+example : findBoundary (encode "aé".toList) 4 2 = .ok (some 3) := by decide
+-- with too little fuel the model does report `fuelOut`: the bound is not vacuous
+example : findBoundary (encode "a日".toList) 1 2 = .fuelOut := by decide
+example : (clip ⟨10, 20⟩ ⟨3, 5⟩).crashes = true := by decide
+
+end Okane.C06
